@@ -116,14 +116,20 @@ func writeFileWithBackup(path string, target []byte) (err error) {
 	}
 	tmpfile := f.Name()
 	_, err = f.Write(target)
-	f.Close()
+	if err == nil {
+		// keep the permission bits of the file being rewritten
+		if fi, e := os.Stat(path); e == nil {
+			err = f.Chmod(fi.Mode().Perm())
+		}
+	}
+	if e := f.Close(); err == nil {
+		err = e
+	}
 	if err != nil {
+		os.Remove(tmpfile)
 		return
 	}
-	err = os.Remove(path)
-	if err != nil {
-		return
-	}
+	// rename over path: path always holds the old or the new content
 	return os.Rename(tmpfile, path)
 }
 
